@@ -55,6 +55,7 @@ pub struct ObsStats {
     pub dma_bytes_in_long_step: u64,
     pub dma_source_written_during: u64,
     pub dma_from_registers: u64,
+    pub dma_source_pushed_over: u64,
     pub joy_edges_press: u64,
     pub joy_edges_select: u64,
     pub joy_request_survived_dispatch: u64,
@@ -241,6 +242,11 @@ impl Obs {
             }
         }
         self.t += n;
+        // the two bytes an interrupt dispatch of this step pushes land after the catch-up
+        let pushed: Vec<u16> = match &info.irq {
+            IrqOutcome::Dispatched { pushes, .. } => pushes.iter().map(|p| p.0).collect(),
+            _ => Vec::new(),
+        };
         if let Some((page, done)) = self.dma {
             let upto = (done + (n / 4) as u32).min(160);
             for k in done..upto {
@@ -249,6 +255,11 @@ impl Obs {
                 let src = (page as u16) << 8 | k as u16;
                 self.oam[k as usize] = if (0xfe00..0xfea0).contains(&src) {
                     self.oam[(src & 0xff) as usize]
+                } else if pushed.contains(&src) {
+                    // copied in this step's catch-up, then overwritten by this step's dispatch:
+                    // what the source held at the moment of the copy cannot be read back
+                    self.stats.dma_source_pushed_over += 1;
+                    oam_of(a)[k as usize]
                 } else if page == 0xff {
                     // device registers as the source: their value at the moment of the copy is
                     // not observable afterwards (the same catch-up advances them); taken as found
@@ -437,12 +448,22 @@ pub fn run_program(rom: &RomImage, mode: u8, steps: u32, buttons: &[ButtonEvent]
             obs.button(b & 7, down);
             bi += 1;
         }
-        let info = if mode == 0 { r.step_instruction() } else { r.step_block(100_000) };
-        if info.out_of_domain.is_some() {
+        // instruction-stepped: the reference first; block-stepped: the emulator first, the
+        // reference then consumes the time it delivered (block extents are the emulator's)
+        let mut info = None;
+        if mode == 0 {
+            let i0 = r.step_instruction();
+            if i0.out_of_domain.is_some() {
+                out.left_domain = true;
+                break;
+            }
+            info = Some(i0);
+        } else if r.next_out_of_domain().is_some() {
             out.left_domain = true;
             break;
         }
         let pc0 = a.regs().pc;
+        let before = a.clocks_total();
         let was_running = a.run_state() == RUN;
         let was_stopped = a.run_state() == crate::mach::STOPPED;
         let res = guarded(|| {
@@ -453,10 +474,22 @@ pub fn run_program(rom: &RomImage, mode: u8, steps: u32, buttons: &[ButtonEvent]
             }
         });
         if res.is_err() {
-            // a panic of the core: C04 / C09 / C11 report it
+            // a panic of the core (or a block running into an undefined opcode): C04 / C09 / C11 judge it
             out.cpu_diverged = true;
             break;
         }
+        let delta = a.clocks_total().wrapping_sub(before);
+        let info = match info {
+            Some(i0) => i0,
+            None => {
+                let i1 = r.step_block_as(delta);
+                if i1.out_of_domain.is_some() {
+                    out.left_domain = true;
+                    break;
+                }
+                i1
+            }
+        };
         out.steps = step + 1;
         if diff_regs(&a.regs(), &r.regs(), true, false).is_some() || a.run_state() != crate::refmach::run_code(r.run) {
             out.cpu_diverged = true;
@@ -516,6 +549,7 @@ pub fn count_classes(o: &RunOutcome, mode: u8, rec: &mut Rec) {
         ("program-dma-bytes-in-long-block", s.dma_bytes_in_long_step),
         ("program-dma-source-written-during-transfer", s.dma_source_written_during),
         ("program-dma-from-device-registers (bytes taken as found)", s.dma_from_registers),
+        ("program-dma-source-byte-overwritten-by-the-same-step's-dispatch (taken as found)", s.dma_source_pushed_over),
         ("program-button-edge", s.joy_edges_press),
         ("program-select-edge", s.joy_edges_select),
         ("program-joypad-request-survived-other-dispatch", s.joy_request_survived_dispatch),
